@@ -833,7 +833,8 @@ package hashgraph
 // WitnessesDecided holds for it.
 //@ func (h *Hashgraph) DecideFame() error
 //@   requires h != nil && h.PendingRounds != nil && h.PendingRounds.wf() && h.MemoOK()
-//@   ensures[memo] h.MemoOK()
+//@   ensures[memo]  h.MemoOK()
+//@   ensures[queue] h.PendingRounds == old(h.PendingRounds) && h.PendingRounds.wf()
 //@   call SetFame assert[target]         __recv() == rRoundInfo && __arg(0) == x
 //@   call SetFame assert[undecided-only] !DecidedWit(rRoundInfo, x)
 //@   call SetFame assert[not-coin-round] diff >= 2 && diff == j - roundIndex && __mod(diff, 4) != 0
@@ -851,12 +852,24 @@ package hashgraph
 //@   loop 5 invariant[voters] forall k int :: 0 <= k && k < len(ssWitnesses) ==> SSV(h, y, ssWitnesses[k], PSHexOf(jPrevPeerSet)) && DecidedOrWit(jPrevRoundInfo, ssWitnesses[k])
 //@   loop 6 invariant[tally] yays + nays == __idx() && yays == __countseq(ssWitnesses, __idx(), func(w string) bool { return __in(w, votes) && __in(x, votes[w]) && votes[w][x] })
 
+// The consensus pipeline runs in this order after a successful insertion, each stage only after the previous
+// one succeeded; a rejected event runs none of them.
+//@ func (h *Hashgraph) InsertEventAndRunConsensus(event *Event, setWireInfo bool) error
+//@   requires h != nil && event != nil && len(event.Body.Parents) == 2 && h.PendingSignatures != nil && h.PendingSignatures.items != nil && h.MemoOK() && h.PendingRounds != nil && h.PendingRounds.wf()
+//@   ensures[memo] h.MemoOK()
+//@   ensures[rejected] ret0 != nil && !__called("DivideRounds") ==> __lastret("InsertEvent", 0) != nil
+//@   call DivideRounds         assert[after-insert]  __lastret("InsertEvent", 0) == nil
+//@   call DecideFame           assert[after-divide]  __called("DivideRounds") && __lastret("DivideRounds", 0) == nil
+//@   call DecideRoundReceived  assert[after-fame]    __called("DecideFame") && __lastret("DecideFame", 0) == nil
+//@   call ProcessDecidedRounds assert[after-received] __called("DecideRoundReceived") && __lastret("DecideRoundReceived", 0) == nil
+
 // DivideRounds: what is recorded for an undetermined event is the value of the round / witness / Lamport-timestamp
 // predicates for that event and nothing else; a round is (re)queued only if it is not queued, not decided and above
 // the lower bound.
 //@ func (h *Hashgraph) DivideRounds() error
 //@   requires h != nil && h.MemoOK() && h.PendingRounds != nil && h.PendingRounds.wf()
-//@   ensures[memo] h.MemoOK()
+//@   ensures[memo]  h.MemoOK()
+//@   ensures[queue] h.PendingRounds == old(h.PendingRounds) && h.PendingRounds.wf() && h.PendingSignatures == old(h.PendingSignatures)
 //@   call SetRound#1 assert[round-value]   __recv() == ev && ev == G_events(h.Store)[hash] && __arg(0) == RoundV(h, hash)
 //@   call SetRound#2 assert[round-stored]  __arg(0) == RoundV(h, hash) && __arg(1) == roundInfo
 //@   call AddCreatedEvent assert[witness-value] __recv() == roundInfo && __arg(0) == hash && __arg(1) == WitV(h, hash) && (roundInfo == G_rounds(h.Store)[RoundV(h, hash)] || __fresh(roundInfo))
@@ -870,7 +883,8 @@ package hashgraph
 // round i's validator set; every round between x's round and i was examined first (ascending order).
 //@ func (h *Hashgraph) DecideRoundReceived() error
 //@   requires h != nil && h.MemoOK()
-//@   ensures[memo] h.MemoOK()
+//@   ensures[memo]  h.MemoOK()
+//@   ensures[queue] h.PendingRounds == old(h.PendingRounds) && (old(h.PendingRounds) != nil && old(h.PendingRounds.wf()) ==> h.PendingRounds.wf())
 //@   call SetRoundReceived assert[target]          __recv() == G_events(h.Store)[x] && __arg(0) == i
 //@   call SetRoundReceived assert[after-creation]  i > RoundV(h, x)
 //@   call SetRoundReceived assert[decided]         tr == G_rounds(h.Store)[i] && tr.decided
